@@ -130,45 +130,57 @@ func c09r8(c *Ctx) {
 		if raw.Obj == nil || raw.Type.Results == nil || len(raw.CallsTo(false, lock)) == 0 {
 			continue
 		}
-		sig := raw.Obj.Type().(*types.Signature)
-		funcRes := -1
-		for i := 0; i < sig.Results().Len(); i++ {
-			if s, ok := sig.Results().At(i).Type().Underlying().(*types.Signature); ok && s.Params().Len() == 0 && s.Results().Len() == 0 {
-				funcRes = i
+		f := c.P.Expand(raw, ir.ExpandOpt{Key: "defers", Defers: true})
+		g := f.Graph()
+		// the release function: the second result of the lock call
+		var rel types.Object
+		for _, call := range f.CallsTo(false, lock) {
+			if nd := g.NodeContaining(call.Pos()); nd != nil {
+				if as, ok := nd.AST.(*ast.AssignStmt); ok && len(as.Lhs) == 3 && len(as.Rhs) == 1 {
+					rel = f.ObjOf(as.Lhs[1])
+				}
 			}
 		}
-		if funcRes < 0 {
+		if rel == nil {
+			continue
+		}
+		// … handed on to the caller: a success return that mentions it (as a result of its own, or as a field of a
+		// record that describes the locked contract)
+		var handsOn []*cfgx.Node
+		for _, ret := range g.Returns() {
+			rs, ok := ret.AST.(*ast.ReturnStmt)
+			if !ok || f.ClassifyReturn(ret) != ir.RetSuccess {
+				continue
+			}
+			for _, r := range rs.Results {
+				if f.MentionsObj(r, false, rel) {
+					handsOn = append(handsOn, ret)
+					break
+				}
+			}
+		}
+		if len(handsOn) == 0 {
 			continue
 		}
 		n++
-		f := c.P.Expand(raw, ir.ExpandOpt{Key: "defers", Defers: true})
-		g := f.Graph()
 		c.VisitGraph(f)
 		ob := c.Ob(f, "lock-still-held-when-handed-on", f.Body.Pos())
 		bad := ""
-		for _, ret := range g.Returns() {
-			rs, ok := ret.AST.(*ast.ReturnStmt)
-			if !ok || len(rs.Results) <= funcRes || f.ClassifyReturn(ret) != ir.RetSuccess {
-				continue
-			}
-			rel := f.ObjOf(rs.Results[funcRes])
-			if rel == nil {
-				continue
-			}
-			calls := func(nd *cfgx.Node) bool {
-				if nd.AST == nil {
-					return false
-				}
-				if _, isDefer := nd.AST.(*ast.DeferStmt); isDefer {
-					return false // (made explicit before the returns by the view)
-				}
-				for _, call := range f.NodeCalls(nd) {
-					if id, isID := ast.Unparen(call.Expr.Fun).(*ast.Ident); isID && f.ObjOf(id) == rel {
-						return true
-					}
-				}
+		calls := func(nd *cfgx.Node) bool {
+			if nd.AST == nil {
 				return false
 			}
+			if _, isDefer := nd.AST.(*ast.DeferStmt); isDefer {
+				return false // (made explicit before the returns by the view)
+			}
+			for _, call := range f.NodeCalls(nd) {
+				if id, isID := ast.Unparen(call.Expr.Fun).(*ast.Ident); isID && f.ObjOf(id) == rel {
+					return true
+				}
+			}
+			return false
+		}
+		for _, ret := range handsOn {
 			for _, nd := range g.Nodes {
 				if !calls(nd) || !g.Live(nd) {
 					continue
@@ -198,7 +210,8 @@ func c08r9(c *Ctx) {
 		ir.Walk(f.Body, true, func(x ast.Node) {
 			switch s := x.(type) {
 			case *ast.KeyValueExpr:
-				if id, ok := s.Key.(*ast.Ident); ok && (f.Info().Uses[id] == types.Object(revisable) || f.Info().Defs[id] == types.Object(revisable)) {
+				// (by name: the keys of a literal assembled by the normalisation carry no use record)
+				if id, ok := s.Key.(*ast.Ident); ok && (f.Info().Uses[id] == types.Object(revisable) || (f.Info().Uses[id] == nil && id.Name == revisable.Name())) {
 					vals = append(vals, s.Value)
 				}
 			case *ast.AssignStmt:
@@ -293,46 +306,114 @@ func c06r9(c *Ctx) {
 		}
 		f := c.P.Expand(raw, ir.ExpandOpt{Key: "all"})
 		g := f.Graph()
-		// relevance sets: locals indexed by an address that are filled in a loop over Event.Relevant, or that field itself
-		isRelevanceTest := func(e ast.Expr, loopVar types.Object) (ok, negated bool) {
-			e = ast.Unparen(e)
-			for {
-				u, isU := e.(*ast.UnaryExpr)
-				if !isU || u.Op != token.NOT {
-					break
+		// e mentions v, or a local that was computed from v (two hops)
+		var derives func(e ast.Expr, v types.Object, depth int) bool
+		derives = func(e ast.Expr, v types.Object, depth int) bool {
+			if e == nil || v == nil {
+				return false
+			}
+			if f.MentionsObj(e, false, v) {
+				return true
+			}
+			if depth >= 2 {
+				return false
+			}
+			hit := false
+			ast.Inspect(e, func(y ast.Node) bool {
+				if id, ok := y.(*ast.Ident); ok && !hit {
+					if o := origin(f, id); o != ast.Expr(id) && derives(o, v, depth+1) {
+						hit = true
+					}
 				}
-				negated = !negated
-				e = ast.Unparen(u.X)
-			}
-			if !f.MentionsObj(e, false, loopVar) || !mentionsText(e, "Address") {
-				return false, false
-			}
-			derived := false
+				return !hit
+			})
+			return hit
+		}
+		// a set / predicate that stands for membership in Event.Relevant
+		fromRelevant := func(e ast.Expr) bool {
+			hit := false
 			ast.Inspect(e, func(y ast.Node) bool {
 				x, isExpr := y.(ast.Expr)
-				if !isExpr {
-					return true
+				if !isExpr || hit {
+					return !hit
 				}
 				if f.FieldOf(x) == relevantFld {
-					derived = true
+					hit = true
 				}
 				if o := f.ObjOf(x); o != nil {
 					if _, isMap := o.Type().Underlying().(*types.Map); isMap {
-						// filled from the relevant list
 						ir.Walk(f.Body, false, func(z ast.Node) {
-							if rs, isRange := z.(*ast.RangeStmt); isRange && f.FieldOf(rs.X) == relevantFld {
+							if rs, isRange := z.(*ast.RangeStmt); isRange && f.FieldOf(ast.Unparen(origin(f, rs.X))) == relevantFld {
 								for _, w := range f.WritesIn(rs.Body, false) {
 									if ix, isIx := ast.Unparen(w.LHS).(*ast.IndexExpr); isIx && f.ObjOf(ix.X) == o {
-										derived = true
+										hit = true
 									}
 								}
 							}
 						})
 					}
 				}
-				return true
+				if call, isCall := x.(*ast.CallExpr); isCall {
+					if fn := f.Callee(call); fn != nil {
+						if body := c.P.FuncOf(fn); body != nil && body.MentionsField(body.Body, true, relevantFld) {
+							hit = true
+						}
+					}
+				}
+				return !hit
 			})
-			return derived, negated
+			return hit
+		}
+		// the passing edge of a relevance test on (something computed from) the loop variable lv, at condition node m
+		passEdge := func(m *cfgx.Node, lv types.Object) *cfgx.Edge {
+			e := ast.Unparen(m.AST.(ast.Expr))
+			neg := false
+			for {
+				u, isU := e.(*ast.UnaryExpr)
+				if !isU || u.Op != token.NOT {
+					break
+				}
+				neg = !neg
+				e = ast.Unparen(u.X)
+			}
+			ok := false
+			switch t := e.(type) {
+			case *ast.Ident:
+				// `_, ok := set[addr]`
+				if call, _ := tupleDef(f, f.ObjOf(t)); call == nil {
+					for _, d := range wholeDefs(f, f.ObjOf(t)) {
+						if rhs := ir.TupleRHS(d.Stmt); rhs != nil {
+							if ix, isIx := ast.Unparen(rhs).(*ast.IndexExpr); isIx && derives(ix.Index, lv, 0) && fromRelevant(ix.X) {
+								ok = true
+							}
+						}
+					}
+				}
+			case *ast.BinaryExpr:
+				// the comparison of a desugared slices.Contains(e.Relevant, addr)
+				if t.Op == token.EQL {
+					for _, pair := range [][2]ast.Expr{{t.X, t.Y}, {t.Y, t.X}} {
+						if o := f.ObjOf(ast.Unparen(pair[0])); o != nil && derives(pair[1], lv, 0) {
+							ir.Walk(f.Body, false, func(z ast.Node) {
+								if rs, isRange := z.(*ast.RangeStmt); isRange && rs.Value != nil && f.ObjOf(rs.Value) == o && f.FieldOf(ast.Unparen(origin(f, rs.X))) == relevantFld {
+									ok = true
+								}
+							})
+						}
+					}
+				}
+			default:
+				if derives(e, lv, 0) && fromRelevant(e) {
+					ok = true
+				}
+			}
+			if !ok {
+				return nil
+			}
+			if neg {
+				return m.Succs[1]
+			}
+			return m.Succs[0]
 		}
 		ir.Walk(f.Body, false, func(x ast.Node) {
 			rs, ok := x.(*ast.RangeStmt)
@@ -345,7 +426,7 @@ func c06r9(c *Ctx) {
 			}
 			// a list of a whole transaction (the event's own lists of spent elements are collected per relevant
 			// address when the event is built)
-			sel, isSel := ast.Unparen(rs.X).(*ast.SelectorExpr)
+			sel, isSel := ast.Unparen(origin(f, rs.X)).(*ast.SelectorExpr)
 			if !isSel {
 				return
 			}
@@ -369,7 +450,7 @@ func c06r9(c *Ctx) {
 				}
 				adds := false
 				for _, call := range f.NodeCalls(nd) {
-					if call.Fn != nil && call.Fn.Name() == "Add" && recvNamed(call.Fn) != nil && recvNamed(call.Fn).Obj().Name() == "Currency" && len(call.Expr.Args) == 1 && f.MentionsObj(call.Expr.Args[0], false, lv) {
+					if call.Fn != nil && call.Fn.Name() == "Add" && recvNamed(call.Fn) != nil && recvNamed(call.Fn).Obj().Name() == "Currency" && len(call.Expr.Args) == 1 && derives(call.Expr.Args[0], lv, 0) {
 						adds = true
 					}
 				}
@@ -384,12 +465,8 @@ func c06r9(c *Ctx) {
 					if m.AST == nil || m.Block == nil || m.Block.Cond != m.AST || len(m.Succs) != 2 || !containsNode(rs.Body, m.AST) {
 						continue
 					}
-					if is, neg := isRelevanceTest(m.AST.(ast.Expr), lv); is {
-						if neg {
-							pass = append(pass, m.Succs[1])
-						} else {
-							pass = append(pass, m.Succs[0])
-						}
+					if e := passEdge(m, lv); e != nil {
+						pass = append(pass, e)
 					}
 				}
 				if len(pass) > 0 && f.OnlyVia(nd, pass) {
@@ -961,8 +1038,97 @@ func c12r8(c *Ctx) {
 		}
 	}
 	if n == 0 {
-		ob.Unknown("no place where the checkpoint regime keeps the fetched blocks was found")
-		return
+		// the list the peer's reply is read into is itself what the worker hands back (a helper's result variable that
+		// became the response's): then every way from the request to the worker's end either drops the list (stores
+		// nil into it) or crosses the comparison
+		sendBlocks := c.P.Method("syncer", "Peer", "SendV2Blocks")
+		isSame := map[*cfgx.Edge]bool{}
+		for _, e := range same {
+			isSame[e] = true
+		}
+		lists := map[types.Object]bool{}
+		fetch := map[*cfgx.Node]bool{}
+		for _, call := range worker.CallsTo(false, sendBlocks) {
+			nd := g.NodeContaining(call.Pos())
+			if nd == nil {
+				continue
+			}
+			if as, isAssign := nd.AST.(*ast.AssignStmt); isAssign && len(as.Lhs) >= 1 {
+				if list := worker.ObjOf(as.Lhs[0]); list != nil && isBlockList(list.Type()) {
+					lists[list] = true
+					fetch[nd] = true
+				}
+			}
+		}
+		carriers := map[types.Object]bool{}
+		for o := range lists {
+			carriers[o] = true
+		}
+		for changed := true; changed; {
+			changed = false
+			for _, w := range worker.WritesIn(worker.Body, false) {
+				if w.RHS == nil || !carriers[worker.ObjOf(ast.Unparen(w.RHS))] {
+					continue
+				}
+				if root := worker.ObjOf(rootOfLvalue(w.LHS)); root != nil && !carriers[root] {
+					carriers[root] = true
+					changed = true
+				}
+			}
+		}
+		drops := func(m *cfgx.Node) bool {
+			if m.AST == nil || fetch[m] {
+				return false
+			}
+			for _, w := range worker.WritesIn(m.AST, false) {
+				if lists[worker.ObjOf(w.LHS)] && w.RHS != nil && worker.IsNil(w.RHS) {
+					return true
+				}
+			}
+			return false
+		}
+		// from the checkpoint side of (each spelling of) the regime test: through the request for blocks, to the
+		// worker's end
+		var st []*cfgx.Visit
+		for _, wc := range wconds {
+			st = append(st, cfgx.StartAfter(wc.ge, 0))
+		}
+		isLT := map[*cfgx.Edge]bool{}
+		for _, wc := range wconds {
+			isLT[wc.lt] = true
+		}
+		for _, v := range worker.ExploreFeasible(st, cfgx.Walker{
+			AtNode: func(m *cfgx.Node, s cfgx.State) (cfgx.State, bool) {
+				if fetch[m] {
+					s |= 1
+				}
+				if _, isRet := m.AST.(*ast.ReturnStmt); isRet {
+					return s, false
+				}
+				return s, !(s&1 != 0 && drops(m)) && !m.Exit
+			},
+			OnEdge: func(e *cfgx.Edge, s cfgx.State) (cfgx.State, bool) { return s, !isSame[e] && !isLT[e] },
+		}) {
+			if fetch[v.Node] {
+				n++
+			}
+			// an exit that hands back the list (directly, or in a value it was stored into)
+			if rs, isRet := v.Node.AST.(*ast.ReturnStmt); isRet && v.State&1 != 0 {
+				holds := len(rs.Results) == 0 // named results: the response variable itself
+				for o := range carriers {
+					if worker.MentionsObj(rs, false, o) {
+						holds = true
+					}
+				}
+				if holds {
+					bad = c.P.Pos(rs.Pos())
+				}
+			}
+		}
+		if n == 0 {
+			ob.Unknown("no place where the checkpoint regime keeps the fetched blocks was found")
+			return
+		}
 	}
 	ob.Check(bad == "", nil, "at and above the require height the worker keeps the peer's blocks (at %s) without the id of the last block — or of every block — having been found equal to an id from the request: validation alone accepts any valid chain on top of the base, so a peer on another fork that shares the base gets its blocks stored as the answer, the blocks of the heaviest chain then fail to attach, and the honest peer serving them is banned", bad)
 }
